@@ -73,6 +73,8 @@ H('k4_before_and_after', 'hooks', ['tarpc/src/server/request_hook/before_and_aft
   'combined hook: after part skipped when before part fails; else sees the context its before part produced')
 H('k4_chain_api_order_and_short_circuit', 'hooks', ['tarpc/src/server/request_hook/before.rs::BeforeRequestCons::before', 'tarpc/src/server/request_hook/before.rs::BeforeRequestCons::then', 'tarpc/src/server/request_hook/before.rs::BeforeRequestNil::then', 'tarpc/src/server/request_hook/before.rs::BeforeRequestCons::serving'],
   'before().then(h1).then(h2).serving(s): h1 then h2 then handler, context threaded, first failure stops the chain')
+H('k4_then_fn_chains_closures_like_then', 'hooks', ['tarpc/src/server/request_hook/before.rs::BeforeRequestList::then_fn', 'tarpc/src/server/request_hook/before.rs::<F as BeforeRequest>::before'],
+  'closure hooks chained with then_fn: order, context threading, short-circuit, handler sees the final context (symbolic pass/fail and markers)')
 H('k4_empty_chain_is_identity', 'hooks', ['tarpc/src/server/request_hook/before.rs::BeforeRequestNil::before', 'tarpc/src/server/request_hook/before.rs::BeforeRequestNil::serving', 'tarpc/src/server/request_hook/before.rs::before'],
   'chain length 0: before().serving(s) behaves as s; the empty list passes and changes nothing')
 H('k4_after_wraps_inner_before_error', 'hooks', ['tarpc/src/server/request_hook/after.rs::ServeThenHook::serve', 'tarpc/src/server/request_hook/before.rs::HookThenServe::serve'],
